@@ -723,6 +723,21 @@ func Run(script interface{}, cfg simrt.Config) *world.Outcome {
 	switch res.Status {
 	case simrt.StatusBudget:
 		out.Aborted = "step budget"
+		if res.LibOnlyTail > cfg.MaxSteps/4 {
+			// For the last quarter of the budget (hundreds of thousands of
+			// scheduling steps) only library goroutines took steps: every
+			// client, the in-process callers and the director (waiting for
+			// quiescence) were parked, so no input and no time can arrive any
+			// more - a goroutine of the library is busy without end.
+			out.Aborted = ""
+			prop := map[string]string{"will": "C09", "keepalive": "C19"}[sc.Profile]
+			if prop == "" {
+				prop = "C16"
+			}
+			what := map[string]string{"C09": "the end of the connection it belongs to is never dealt with (no will, no teardown)", "C19": "the silent connection it belongs to is never dropped and dealt with", "C16": "its connection is never torn down and the goroutine never exits"}[prop]
+			out.Add(prop, "no-livelock", prop+"/livelock/"+siteOf(res.LastTask), fmt.Sprintf("for the last %d scheduling steps of the run only library goroutines ran while every peer and the harness were parked waiting for the broker to become idle; goroutine %q is busy without end: %s. Tasks: %s", res.LibOnlyTail, res.LastTask, what, simrt.FormatTasks(res.Left)))
+			return out
+		}
 	case simrt.StatusHang:
 		out.Aborted = "director hang: " + simrt.FormatTasks(res.Left)
 	}
